@@ -61,10 +61,32 @@ type sqlGen struct {
 
 	startClock, endClock bool // TimeRange.Start / .End depend on the wall clock
 	inHaving             bool
+
+	// size class: wide != "" makes ONE clause of the statement wide (wideN terms on one or two
+	// levels) while the rest of the statement keeps its usual size; see wideTargets.
+	wide     string
+	wideN    int
+	wideDone bool // the wide clause was really emitted
+	noEdges  bool // inside a wide clause the deliberately malformed shapes are switched off
 }
 
+// wideTargets: the clause that gets wideN terms.
+//
+//	where   : tag filters joined by and/or (every 7th or so a parenthesised group)   -> one Condition tree with ~2*wideN nodes
+//	in      : key [not] in (v1 ... v_wideN)                                            -> one InExpr with wideN values
+//	arith   : select f0+f1*f2-...                                                      -> one SelectItem with ~2*wideN nodes
+//	params  : select sum(p1, ..., p_wideN)                                             -> one CallExpr with wideN params
+//	having  : wideN/2 comparisons joined by and/or                                     -> one Having tree
+//	select / groupBy / orderBy: wideN list entries (each its own small expression)
+var wideTargets = []string{"where", "where", "in", "arith", "arith", "params", "having", "select", "groupBy", "orderBy"}
+
+// a ladder, not an integer range (rapid draws ranges mostly near their ends); dense around the
+// powers of two where size limits usually sit. Not beyond 100: stmt.Unmarshal decodes every level of
+// a tree into a generic value first, so a chain of n terms costs O(n^2) (about 15 ms at n = 100).
+var wideLadder = []int{12, 20, 31, 32, 33, 34, 40, 48, 63, 64, 65, 66, 80, 100}
+
 func newSQLGen(t *rapid.T) *sqlGen {
-	return &sqlGen{
+	g := &sqlGen{
 		t:        t,
 		maxDepth: rapid.SampledFrom([]int{1, 2, 3, 3, 4, 4, 5, 5}).Draw(t, "maxDepth"),
 		kwStyle:  rapid.SampledFrom([]int{0, 0, 0, 1, 2}).Draw(t, "kwStyle"),
@@ -75,7 +97,15 @@ func newSQLGen(t *rapid.T) *sqlGen {
 		startClock: true,
 		endClock:   true,
 	}
+	if g.chance(widePercent, "wide") {
+		g.wide = rapid.SampledFrom(wideTargets).Draw(t, "wideTarget")
+		g.wideN = rapid.SampledFrom(wideLadder).Draw(t, "wideN")
+	}
+	return g
 }
+
+// widePercent of the generated statements have one wide clause.
+const widePercent = 2
 
 // ---- token emission ---------------------------------------------------------------------
 
@@ -300,7 +330,7 @@ func (g *sqlGen) malformedOperand() {
 }
 
 func (g *sqlGen) wantNilOperandEdge() bool {
-	return !ev.Known(sigNilOperand) && g.chance(1, "edgeNilOperand")
+	return !g.noEdges && !ev.Known(sigNilOperand) && g.chance(1, "edgeNilOperand")
 }
 
 // operand emits a fieldExpr used as operand of a binary/paren node.
@@ -346,7 +376,7 @@ func (g *sqlGen) atom(identOnly bool) {
 	}
 	switch k {
 	case 0, 1, 2:
-		if !ev.Known(sigInfNumber) && g.chance(1, "edgeInf") {
+		if !g.noEdges && !ev.Known(sigInfNumber) && g.chance(1, "edgeInf") {
 			g.hugeNumber()
 			return
 		}
@@ -367,9 +397,13 @@ func (g *sqlGen) atom(identOnly bool) {
 
 // call emits exprFunc with 0..3 params.
 func (g *sqlGen) call(depth int) {
+	g.callN(depth, rapid.SampledFrom([]int{0, 1, 1, 1, 1, 1, 2, 3}).Draw(g.t, "nParams"))
+}
+
+// callN emits exprFunc with n params.
+func (g *sqlGen) callN(depth, n int) {
 	g.kw(rapid.SampledFrom(funcNames).Draw(g.t, "func"))
 	g.p("(")
-	n := rapid.SampledFrom([]int{0, 1, 1, 1, 1, 1, 2, 3}).Draw(g.t, "nParams")
 	for i := 0; i < n; i++ {
 		if i > 0 {
 			g.p(",")
@@ -388,9 +422,90 @@ func (g *sqlGen) call(depth int) {
 	g.p(")")
 }
 
+// ---- wide clauses ---------------------------------------------------------------------------
+
+// wideArith emits operand (op operand){wideN-1}: many terms in ONE select item, on one level of
+// the text (the tree the listener builds leans to one side; mixed precedence mixes it).
+func (g *sqlGen) wideArith() {
+	g.wideDone = true
+	g.noEdges = true
+	defer func() { g.noEdges = false }()
+	for i := 0; i < g.wideN; i++ {
+		if i > 0 {
+			g.p(rapid.SampledFrom([]string{"+", "+", "-", "*", "/"}).Draw(g.t, "arith"))
+		}
+		d := 1
+		if g.chance(12, "wideTermCall") {
+			d = 2
+		}
+		g.fieldExpr(d)
+	}
+}
+
+// wideCall emits a call with wideN params.
+func (g *sqlGen) wideCall() {
+	g.wideDone = true
+	g.noEdges = true
+	defer func() { g.noEdges = false }()
+	g.callN(2, g.wideN)
+}
+
+// wideTagFilter emits tagFilter ((and|or) tagFilter){wideN-1}; some terms are parenthesised
+// groups (`(dc='a' and (role='x' or role='y'))`).
+func (g *sqlGen) wideTagFilter() {
+	g.wideDone = true
+	for i := 0; i < g.wideN; i++ {
+		if i > 0 {
+			g.kw(rapid.SampledFrom([]string{"and", "or", "or"}).Draw(g.t, "tfLogic"))
+		}
+		d := 1
+		if g.chance(12, "wideTermGroup") {
+			d = 3
+		}
+		g.tagFilter(d)
+	}
+}
+
+// wideIn emits key [not] in (v1, ..., v_wideN).
+func (g *sqlGen) wideIn() {
+	g.wideDone = true
+	g.ident("tagKey", tagPool, false)
+	if g.chance(30, "notIn") {
+		g.kw("not")
+	}
+	g.kw("in")
+	g.p("(")
+	for i := 0; i < g.wideN; i++ {
+		if i > 0 {
+			g.p(",")
+		}
+		g.tagValue()
+	}
+	g.p(")")
+}
+
+// wideBoolExpr emits wideN/2 comparisons joined by and/or (rule boolExpr).
+func (g *sqlGen) wideBoolExpr() {
+	g.wideDone = true
+	g.noEdges = true
+	defer func() { g.noEdges = false }()
+	n := g.wideN / 2
+	for i := 0; i < n; i++ {
+		if i > 0 {
+			g.kw(rapid.SampledFrom([]string{"and", "and", "or"}).Draw(g.t, "beLogic"))
+		}
+		g.boolExpr(rapid.SampledFrom([]int{2, 3, 3}).Draw(g.t, "wideCmpDepth"))
+	}
+}
+
 // selectList emits `fields`.
 func (g *sqlGen) selectList() {
 	n := rapid.SampledFrom([]int{1, 1, 1, 2, 2, 3}).Draw(g.t, "nSelect")
+	if g.wide == "select" {
+		n = g.wideN
+		g.wideDone = true
+	}
+	wideItem := g.wide == "arith" || g.wide == "params"
 	real := 0
 	for i := 0; i < n; i++ {
 		if i > 0 {
@@ -399,7 +514,7 @@ func (g *sqlGen) selectList() {
 		// items the listener drops (bare number, duration) or that only set allFields (star);
 		// a list made of dropped items only is rejected ("select fields cannot be empty"),
 		// so they are only used once a real item exists. `select *` alone is fine.
-		if i == 0 && n == 1 && g.chance(8, "selectStar") {
+		if i == 0 && n == 1 && !wideItem && g.chance(8, "selectStar") {
 			g.p("*")
 			g.kinds["star"] = true
 			return
@@ -429,8 +544,18 @@ func (g *sqlGen) selectList() {
 		if i > 0 && depth > 2 {
 			depth = rapid.IntRange(1, depth).Draw(g.t, "itemDepth")
 		}
+		if g.wide == "select" && depth > 2 {
+			depth = 2
+		}
 		edgesBefore := len(g.edges)
-		g.fieldExpr0(depth, true)
+		switch {
+		case i == 0 && g.wide == "arith":
+			g.wideArith()
+		case i == 0 && g.wide == "params":
+			g.wideCall()
+		default:
+			g.fieldExpr0(depth, true)
+		}
 		item := g.since(m)
 		if isCallTokens(item) && len(g.edges) == edgesBefore {
 			g.topCalls = append(g.topCalls, item)
@@ -677,19 +802,29 @@ func (g *sqlGen) where() {
 	g.kw("where")
 	form := rapid.IntRange(0, 4).Draw(g.t, "whereForm")
 	depth := g.maxDepth
+	filter := func() { g.tagFilter(depth) }
+	switch g.wide {
+	case "where":
+		filter = g.wideTagFilter
+	case "in":
+		filter = g.wideIn
+	}
+	if form == 4 && (g.wide == "where" || g.wide == "in") {
+		form = 2
+	}
 	switch form {
 	case 0, 1: // tagFilterExpr
-		g.tagFilter(depth)
+		filter()
 		g.kinds["condition"] = true
 	case 2: // tagFilterExpr AND timeRangeExpr
-		g.tagFilter(depth)
+		filter()
 		g.kw("and")
 		g.timeRange()
 		g.kinds["condition"] = true
 	case 3: // timeRangeExpr AND tagFilterExpr
 		g.timeRange()
 		g.kw("and")
-		g.tagFilter(depth)
+		filter()
 		g.kinds["condition"] = true
 	default: // timeRangeExpr
 		g.timeRange()
@@ -732,6 +867,10 @@ func (g *sqlGen) groupBy() {
 	g.kw("group")
 	g.kw("by")
 	n := rapid.SampledFrom([]int{1, 1, 2, 3}).Draw(g.t, "nGroupBy")
+	if g.wide == "groupBy" {
+		n = g.wideN
+		g.wideDone = true
+	}
 	for i := 0; i < n; i++ {
 		if i > 0 {
 			g.p(",")
@@ -776,10 +915,14 @@ func (g *sqlGen) groupBy() {
 		}
 		g.p(")")
 	}
-	if g.chance(45, "having") {
+	if g.wide == "having" || g.chance(45, "having") {
 		g.kw("having")
 		g.inHaving = true
-		g.boolExpr(g.maxDepth)
+		if g.wide == "having" {
+			g.wideBoolExpr()
+		} else {
+			g.boolExpr(g.maxDepth)
+		}
 		g.inHaving = false
 		g.kinds["having"] = true
 	}
@@ -793,6 +936,10 @@ func (g *sqlGen) orderBy() {
 	g.kw("order")
 	g.kw("by")
 	n := rapid.SampledFrom([]int{1, 1, 2, 3}).Draw(g.t, "nOrderBy")
+	if g.wide == "orderBy" {
+		n = g.wideN
+		g.wideDone = true
+	}
 	for i := 0; i < n; i++ {
 		if i > 0 {
 			g.p(",")
@@ -856,13 +1003,13 @@ func (g *sqlGen) queryStmt() {
 		g.selectList()
 		g.from()
 	}
-	if g.chance(70, "hasWhere") {
+	if g.wide == "where" || g.wide == "in" || g.chance(70, "hasWhere") {
 		g.where()
 	}
-	if g.chance(50, "hasGroupBy") {
+	if g.wide == "having" || g.wide == "groupBy" || g.chance(50, "hasGroupBy") {
 		g.groupBy()
 	}
-	if g.canOrderBy() && g.chance(40, "hasOrderBy") {
+	if g.canOrderBy() && (g.wide == "orderBy" || g.chance(40, "hasOrderBy")) {
 		g.orderBy()
 	}
 	if g.chance(40, "hasLimit") {
@@ -891,6 +1038,13 @@ func (g *sqlGen) metadataStmt() string {
 		}
 	}
 	kind := rapid.SampledFrom([]string{"namespaces", "metrics", "fields", "tagKeys", "tagValues", "tagValues", "tagValues"}).Draw(g.t, "mdKind")
+	if g.wide != "" {
+		// the only clause of a metadata statement that can be wide is the condition of show tag values
+		kind = "tagValues"
+		if g.wide != "in" {
+			g.wide = "where"
+		}
+	}
 	switch kind {
 	case "namespaces":
 		g.kw("namespaces")
@@ -932,10 +1086,33 @@ func (g *sqlGen) metadataStmt() string {
 		g.kw("key")
 		g.p("=")
 		g.ident("withKey", tagPool, false)
-		if g.chance(70, "mdWhere") {
+		if g.wide != "" || g.chance(70, "mdWhere") {
 			g.where()
 		}
 		limit()
 	}
 	return kind
+}
+
+// sizeClasses: the labels of the size class of a generated text.
+func (g *sqlGen) sizeClasses() []string {
+	if !g.wideDone {
+		return nil
+	}
+	return []string{"wide=" + g.wide, "wide:any", fmt.Sprintf("wideN=%s", sizeBucket(g.wideN))}
+}
+
+func sizeBucket(n int) string {
+	switch {
+	case n < 16:
+		return "000..15"
+	case n < 32:
+		return "016..31"
+	case n < 64:
+		return "032..63"
+	case n < 128:
+		return "064..127"
+	default:
+		return "128.."
+	}
 }
